@@ -272,6 +272,10 @@ fn get_match_statically_known(
     arg_provider.query_variable = &query_variable;
     arg_provider.query_function = &asm::resolver::get_statically_known_builtin_fn;
 
+    // Every argument is type-checked when the match is resolved,
+    // so the match is only static if all its arguments are
+    let mut all_args_known = true;
+
     for i in 0..rule.parameters.len()
     {
         let param = &rule.parameters[i];
@@ -288,6 +292,8 @@ fn get_match_statically_known(
                 {
                     let value_known =
                         arg_expr.is_value_statically_known(&arg_provider);
+
+                    all_args_known &= value_known;
 
                     provider.locals.insert(
                         param.name.clone(),
@@ -308,6 +314,8 @@ fn get_match_statically_known(
                         symbol_ctx,
                         nested_match);
 
+                    all_args_known &= value_known;
+
                     provider.locals.insert(
                         param.name.clone(),
                         expr::StaticallyKnownLocal {
@@ -319,7 +327,8 @@ fn get_match_statically_known(
         }
     }
 
-    rule.expr.is_value_statically_known(&provider)
+    all_args_known &&
+        rule.expr.is_value_statically_known(&provider)
 }
 
 
